@@ -11,7 +11,9 @@ directly by oracles written from the property text / the strategies' documentati
 The exact universe is run in several regimes of the size of the loss and of its changes (REGIMES: |theta| ~ 2^12, 2^5, 2^-16 with steps of
 a few grid units, a float32 model) under both process default dtypes; an inexact "offset universe" (offset_one: loss dominated by constant
 residual rows, arbitrary floating steps, LM / GN, float64 / float32 model, both default dtypes) is judged by exact Fractions of the polynomial
-loss, granting only the round-off of the model's own dtype.
+loss, granting only the round-off of the model's own dtype.  An "overflow universe" (overflow_one: residual rows exp(a t) - b / (a t)^p - b, whose loss
+overflows to +inf at moderate t; scripted steps on a grid and real solvers from an ill-conditioned start on the flat side; float64 / float32) makes
+trials whose loss is +inf: a worse trial like any other (rejected, restored, reported to the strategy as unsuccessful, retried while rejections are left).
 Real residual models (LM and GN; well / ill conditioned; kernels, kernel lists, correctors, target call form, several
 residual tensors, hyper-parameter regimes, starts at an exact stationary point, constant rows dominating the loss, both default dtypes;
 tolerance 1e-12 relative) are checked against the clauses
@@ -25,7 +27,7 @@ RULE = ('scripted universe: (strategy kind, hyper-parameters, reject, theta0, sc
         'directed scripts make the first k trials increase the loss for k = 0..reject+1 and raise at solve j for every j; '
         'thresholds in every legal order, zero steps (quality 0/0) included; regimes of the size of the loss and of its changes (theta ~ 2^12 / 2^5 / 2^-16 with steps of a few '
         'grid units: relative changes of 2^-24, absolute ones of 2^-56; float32 model) under both process default dtypes, still exact; offset universe (loss dominated by constants, '
-        'arbitrary floating steps, exact-Fraction oracle with the round-off of the model dtype only); real LM / GN models with kernels, correctors, targets, stationary starts, constant rows; '
+        'arbitrary floating steps, exact-Fraction oracle with the round-off of the model dtype only); overflow universe (exp / power residuals, trials with loss +inf, scripted and real solvers); real LM / GN models with kernels, correctors, targets, stationary starts, constant rows; '
         'non-trivial = trace with at least one rejected trial or raise; distinct by full script')
 
 
@@ -437,6 +439,7 @@ def run(ctx):
                 ctx.mismatch('gn-trace', gmetas[i])
     # ---------------------------------------------------------------- real residual models vs the proved invariants
     offset_models(ctx, pp, torch)
+    overflow_models(ctx, pp, torch)
     real_models(ctx, pp, torch)
     # ---------------------------------------------------------------- search: the property's clauses, directly
     for m in ctx.mismatches[:60]:
@@ -600,6 +603,8 @@ def replay(ctx, c):
                 or check_strategy(pp, torch, c['cfg'], c['reject'], c['theta0'], None, sc, c['ncalls'], **kw))
     if c.get('kind') == 'offset':
         return offset_one(pp, torch, c)
+    if c.get('kind') == 'overflow':
+        return overflow_one(pp, torch, c)
     if c.get('kind') == 'gn':
         return check_clauses(pp, torch, None, 0, c['theta0'], c['script'], c['ncalls'], gn=True)
     if c.get('kind') == 'real':
@@ -785,6 +790,326 @@ def offset_models(ctx, pp, torch):
             seen[why.split(':')[0]] = seen.get(why.split(':')[0], 0) + 1
             c = dict(c, script=c['script'][:80] if c['ncalls'] <= 3 else c['script'])
             ctx.violation(('gn-clause:' if c['opt'] == 'gn' else 'lm-clause:') + why.split(':')[0], why, c)
+
+
+# ------------------------------------------------------------------------------------------------
+# Overflow universe: models whose loss overflows to +inf at moderate parameter values (exp(a t) - b, (a t)^p - b), so that a trial of
+# LevenbergMarquardt.step can have the loss +inf.  For the property such a trial is a worse trial like any other: `inf > last`.
+def ovf_resid(torch, c, x):
+    """the residual rows as a function of the parameter tensor x (x[0] drives the overflowing rows, the optional x[1] benign linear rows)"""
+    rows = []
+    for a, b_ in c['rows']:
+        rows.append(torch.exp(a * x[0]) - b_ if c['fam'] == 'exp' else (a * x[0]) ** c['p'] - b_)
+    for s, q in c.get('lin') or []:
+        rows.append(s * (x[-1] - q))
+    return torch.stack(rows).unsqueeze(-1)
+
+
+def ovf_loss(torch, c, x):
+    """the loss of the model (sum of the squared residuals, in the model's dtype) at the parameter tensor x; +inf where it overflows"""
+    with torch.no_grad():
+        return float(ovf_resid(torch, c, x).square().sum())
+
+
+def overflow_one(pp, torch, c):
+    """LM on a model whose loss can overflow, with a scripted solver (steps on a grid: theta + d - d is exact) or a real solver (ill-conditioned
+    start on the flat side, the weakly damped first trials jump to where exp() overflows).  Oracle = the property text with the order of the
+    extended reals: the returned / cached loss is the loss at the parameters left behind (+inf = +inf), it is not larger than the loss at the
+    parameters given unless reject+1 trials were made (+inf is larger than every finite loss), rejected trials leave the parameters as they were
+    (up to the round-off of x + D - D, recomputed here in the model's dtype), at most reject+1 trials, a raising solver ends the call with
+    parameters and loss as before, and every completed trial is reported once to strategy.update with the true losses (last, trial loss = +inf)
+    and moves the damping as documented: rho = (last - inf) / predicted = -inf for a positive predicted decrease - neither `> high` nor `> low`."""
+    with default_dtype(torch, c.get('dd')):
+        return overflow_one_(pp, torch, c, getattr(torch, c['mdt']))
+
+
+def overflow_one_(pp, torch, c, DT):
+    F_ = Fraction
+    inf = float('inf')
+    eps = float(torch.finfo(DT).eps)
+    rtol = 1e-12 if DT == torch.float64 else 1e-5
+    cfg, reject, script = c['cfg'], c['reject'], c.get('script')
+    fin = lambda v: v == v and abs(v) != inf
+    loss_at = lambda x: ovf_loss(torch, c, x)
+
+    class Net(torch.nn.Module):
+        def __init__(self):
+            super().__init__()
+            self.x = torch.nn.Parameter(torch.tensor(c['x0'], dtype=DT))
+
+        def forward(self, inp):
+            return ovf_resid(torch, c, self.x)
+
+    class Solver(torch.nn.Module):
+        def __init__(self):
+            super().__init__()
+            self.n, self.steps = 0, []
+            self.inner = None if script is not None else [pp.optim.solver.Cholesky, pp.optim.solver.PINV, pp.optim.solver.LSTSQ][c.get('solver', 0)]()
+
+        def forward(self, A, b):
+            j = self.n
+            self.n += 1
+            self.steps.append(None)
+            if script is not None:
+                d = script[j] if j < len(script) else None
+                if d is None:
+                    raise Raise('scripted solver failure at solve %d' % j)
+                D = torch.tensor([[d]], dtype=DT)
+            else:
+                if c.get('raise_at') is not None and j == c['raise_at']:
+                    raise Raise('scripted solver failure at solve %d' % j)
+                D = self.inner(A, b)
+            self.steps[-1] = D.detach().clone().view(-1)
+            return D
+    net, solver = Net(), Solver()
+    strat = make_strategy(pp, cfg)
+    kw = dict(min=c['min']) if c.get('min') is not None else {}
+    opt = pp.optim.LM(net, solver=solver, strategy=strat, reject=reject, **kw)
+    updates = []
+    orig = strat.update
+
+    def spy(pg, last, loss, J, D, R, *args, **kwargs):
+        before = (pg['damping'], pg.get('radius'), pg.get('down'))
+        trial = loss_at(net.x.detach())                   # the parameters are at the trial point now
+        orig(pg, last=last, loss=loss, J=J, D=D, R=R, *args, **kwargs)
+        updates.append(dict(before=before, after=(pg['damping'], pg.get('radius'), pg.get('down')), last=float(last), loss=float(loss), trial=trial,
+                            J=J.detach().clone(), D=D.detach().clone().view(-1), R=R.detach().clone().view(-1)))
+    strat.update = spy
+    inp = torch.zeros(1, dtype=DT)
+    desc = ', '.join('%s - %r' % (('exp(%r t)' % a) if c['fam'] == 'exp' else '(%r t)^%d' % (a, c['p']), b_) for a, b_ in c['rows'])
+    desc += ''.join(', %r (u - %r)' % (s, q) for s, q in c.get('lin') or [])
+    sname = ['Constant(damping=%r)' % cfg.get('damping'), 'Adaptive(damping=%r, high=%r, low=%r, up=%r, down=%r, min=%r, max=%r)' % (
+        cfg.get('damping'), cfg['high'], cfg['low'], cfg['up'], cfg['down'], cfg['smin'], cfg['smax']),
+        'TrustRegion(radius=%r, high=%r, low=%r, up=%r, down=%r, factor=%r, min=%r, max=%r)' % (
+        cfg.get('radius'), cfg['high'], cfg['low'], cfg['up'], cfg['down'], cfg['factor'], cfg['smin'], cfg['smax'])][cfg['kind']]
+    where = 'overflow universe (%s model with residual rows %s, default dtype %s, start %r, LM(reject=%d%s, %s), %s)' % (
+        c['mdt'], desc, c.get('dd') or 'float32', c['x0'], reject, ', min=%r' % c['min'] if c.get('min') is not None else '', sname,
+        'scripted solver' if script is not None else 'solver %s%s' % (type(solver.inner).__name__, '' if c.get('raise_at') is None else ' raising at solve %d' % c['raise_at']))
+    slack = torch.zeros_like(net.x.detach())              # how far the parameters may be from those the cached loss was computed at
+    for k in range(c['ncalls']):
+        xb = net.x.detach().clone()
+        Lb = loss_at(xb)
+        if not fin(Lb):
+            stat('overflow-trace-not-judged-further-after-an-exhausted-call-ended-at-a-non-finite-loss')
+            return None                                   # the call before exhausted its rejections at +inf: nothing can be larger than that
+        n0, u0 = solver.n, len(updates)
+        try:
+            with contextlib.redirect_stdout(io.StringIO()):
+                r = float(opt.step(inp))
+        except Raise:
+            if not torch.equal(net.x.detach(), xb):
+                return 'solver-raise: %s call %d: the solver raised and the parameters changed from %r to %r' % (where, k, xb.tolist(), net.x.detach().tolist())
+            return None
+        xa = net.x.detach().clone()
+        steps = solver.steps[n0:]
+        trials, rej, ups = len(steps), int(opt.reject_count), updates[u0:]
+        raised = bool(steps) and steps[-1] is None
+        done = [s for s in steps if s is not None]
+        if any(not bool(torch.isfinite(s).all()) for s in done) or not bool(torch.isfinite(xa).all()):
+            stat('overflow-trace-not-judged-further-non-finite-step-from-the-solver')
+            return None
+        La = loss_at(xa)
+        tls = [loss_at(xb + s) for s in done]             # (up to the round-off of the undone trials before)
+        tl = ['%.6g' % v for v in tls]
+        what = '%s call %d (parameters given %r with loss %r; %d solve(s)%s, steps %r, losses at the trial points %s)' % (
+            where, k, xb.tolist(), Lb, trials, ', the last one raised' if raised else '', [s.tolist() for s in done], tl)
+        stat('overflow-call-judged')
+        if any(v == inf for v in tls):
+            stat('overflow-call-with-a-trial-of-loss-+inf' + ('-scripted' if script is not None else '-real-solver'))
+        # round-off of the retraction undo: x + D - D in the model's dtype, for the trials that were not kept
+        def undo(ss):
+            xs, rt = xb.clone(), slack.clone()
+            for s in ss:
+                y = (xs + s) - s
+                rt += 2 * (y - xs).abs() + 4 * eps * xs.abs() * float(bool((s != 0).any()))
+                xs = y
+            return xs, rt
+        xs, rt = undo(done)                               # every trial undone
+        kept = False
+        if bool(((xa - xb).abs() > rt).any()):
+            if raised:
+                return 'solver-raise: %s: after the solver raised the parameters are %r' % (what, xa.tolist())
+            xs, rt = undo(done[:-1])                      # or the last trial kept
+            kept = True
+            if not (done and bool(((xa - (xs + done[-1])).abs() <= rt + 2 * eps * (xs.abs() + done[-1].abs())).all())):
+                return 'restore: %s left the parameters %r: neither those given nor those of the last trial' % (what, xa.tolist())
+        # what the loss may differ by between parameters within rt of each other (sampled at the corners)
+        def wobble(x, L):
+            if not bool((rt > 0).any()) or not fin(L):
+                return 0.0
+            w = 0.0
+            for sg in ([(1,), (-1,)] if x.numel() == 1 else [(1, 1), (1, -1), (-1, 1), (-1, -1)]):
+                v = loss_at(x + rt * torch.tensor(sg, dtype=DT))
+                w = max(w, abs(v - L)) if fin(v) else w
+            return 2 * w
+        same = lambda a, b_, tol: a == b_ or abs(a - b_) <= tol
+        tolb = rtol * max(1.0, abs(Lb)) + wobble(xb, Lb)
+        tola = (rtol * max(1.0, abs(La)) + wobble(xa, La)) if fin(La) else 0.0
+        if float(opt.loss) != r:
+            return 'loss-attr: %s returned %r, optimizer.loss is %r' % (what, r, float(opt.loss))
+        if not same(r, La, tola):
+            return 'true-loss: %s returned %r; the loss at the parameters left behind %r is %r' % (what, r, xa.tolist(), La)
+        if not same(float(opt.last), Lb, tolb):
+            return 'last: %s recorded optimizer.last=%r; the loss at the parameters given is %r' % (what, float(opt.last), Lb)
+        if trials > reject + 1:
+            return 'trials: %s made %d solves with reject=%d' % (what, trials, reject)
+        if (La > Lb + tolb + tola or La != La) and not (rej == reject and trials == reject + 1):
+            return ('monotone: %s left the parameters %r with loss %r > %r after %d trial(s) in that call (reject_count %d, reject %d: a worse loss - +inf is worse than '
+                    'every finite one - may only be kept after reject+1 trials)') % (what, xa.tolist(), La, Lb, trials, rej, reject)
+        if raised and not same(r, Lb, tolb):
+            return 'solver-raise: %s: after the solver raised the loss is %r' % (what, r)
+        if len(ups) != len(done):
+            return ('strategy-calls: %s: %d trial(s) were completed, strategy.update was called %d time(s) (after each trial the damping has to move as the strategy documents)'
+                    % (what, len(done), len(ups)))
+        for j, u in enumerate(ups):
+            if not same(u['last'], Lb, tolb) or not same(u['loss'], u['trial'], rtol * max(1.0, abs(u['trial'])) if fin(u['trial']) else 0.0):
+                return ('strategy-args: %s: strategy.update of trial %d was called with last=%r, loss=%r; the loss at the parameters given is %r, at the trial parameters %r'
+                        % (what, j, u['last'], u['loss'], Lb, u['trial']))
+            why = ovf_transition(torch, cfg, u, eps)
+            if why:
+                return 'strategy: %s, trial %d: %s' % (what, j, why)
+        slack = torch.zeros_like(slack) if kept else rt
+    return None
+
+
+def ovf_transition(torch, cfg, u, eps):
+    """the documented transition of one strategy.update call, from its arguments: predicted decrease |R|^2 - |R + J D|^2 in exact Fractions,
+    actual decrease last - loss (-inf for a trial loss +inf); not judged where the sign of the prediction or the side of a threshold is
+    within the round-off of the implementation's floating evaluation"""
+    F_ = Fraction
+    inf = float('inf')
+    bd, br, bw = u['before']
+    ad, ar, aw = u['after']
+    if cfg['kind'] == 0:
+        return None if ad == bd else 'Constant: damping changed from %r to %r' % (bd, ad)
+    J, D, R = u['J'], u['D'], u['R']
+    if not (bool(torch.isfinite(J).all()) and bool(torch.isfinite(D).all()) and bool(torch.isfinite(R).all())) or u['last'] != u['last'] or abs(u['last']) == inf or u['loss'] != u['loss']:
+        stat('overflow-strategy-update-not-judged-non-finite-arguments')
+        return None
+    if bool((D == 0).all()):
+        rho = float('nan')
+    else:
+        Rl = [F_(float(v)) for v in R]
+        JD = [sum(F_(float(J[i, j])) * F_(float(D[j])) for j in range(J.shape[1])) for i in range(J.shape[0])]
+        pred = sum(r * r for r in Rl) - sum((r + q) ** 2 for r, q in zip(Rl, JD))
+        unc = 32 * F_(eps) * sum(abs(q) * (2 * abs(r) + abs(q)) for r, q in zip(Rl, JD))
+        big = sum(abs(q) * (2 * abs(r) + abs(q)) for r, q in zip(Rl, JD))
+        if big > F_(float(torch.finfo(J.dtype).max)) / 2 ** 20 or abs(pred) < F_(float(torch.finfo(J.dtype).tiny)) * 2 ** 20:
+            stat('overflow-strategy-update-not-judged-prediction-outside-the-range-of-the-dtype')
+            return None
+        if abs(pred) <= unc:
+            stat('overflow-strategy-update-not-judged-prediction-near-zero')
+            return None
+        if u['loss'] == inf:
+            rho = -inf if pred > 0 else inf
+        else:
+            act = F_(u['last']) - F_(u['loss'])
+            rho = act / pred
+            mar = (unc * abs(rho) + 8 * F_(eps) * (abs(F_(u['last'])) + abs(F_(u['loss'])))) / abs(pred) + F_(1, 10 ** 6) * (1 + abs(rho))
+            if min(abs(rho - F_(cfg['high'])), abs(rho - F_(cfg['low']))) <= mar:
+                stat('overflow-strategy-update-not-judged-near-threshold')
+                return None
+    stat('overflow-strategy-update-judged' + ('-trial-loss-+inf' if u['loss'] == inf else ''))
+    wd, wr, ww = doc_strategy(cfg, F_(bd), F_(br) if br is not None else None, F_(bw) if bw is not None else None, rho)
+    bad = F_(ad) != wd or (cfg['kind'] == 2 and (F_(ar) != wr or F_(aw) != ww))
+    if bad:
+        return ('step quality rho = (%r - %r) / predicted decrease %.6g = %s; %s moved damping / radius / down-factor from %r to %r, the documented update gives %r'
+                % (u['last'], u['loss'], float(pred) if rho == rho else 0.0, 'not a number (0/0, zero step)' if rho != rho else '%.6g' % float(rho),
+                   'Adaptive' if cfg['kind'] == 1 else 'TrustRegion', u['before'], u['after'], (float(wd), float(wr) if wr is not None else None, float(ww) if ww is not None else None)))
+    return None
+
+
+OVF_GRID = sorted(set([k / 4.0 for k in range(-48, 49)] + [s * v for s in (1.0, -1.0) for v in (20.0, 32.0, 45.0, 50.0, 64.0, 90.0, 100.0, 200.0, 356.0, 400.0, 720.0, 800.0, 1024.0, 2000.0)]))
+
+
+def gen_overflow_scripted(rng, torch, t):
+    """scripted steps between grid points (multiples of 1/4 up to 2000: theta + d - d is exact in float32 and float64), chosen by the class of the
+    loss at the target: I (+inf), W (finite, worse), G (better), E (zero step); the first k trials of a call are I / W with k = 0..reject+1,
+    then G / E / a raise.  Tracks the accept / reject rule of the property."""
+    mdt = 'float32' if t % 3 == 2 else 'float64'
+    DT = getattr(torch, mdt)
+    fam = 'exp' if t % 2 == 0 else 'pow'
+    sg = rng.choice([1.0, 1.0, -1.0])
+    rows = [(sg * rng.choice([1.0, 2.0, 0.5]), rng.choice([1.0, 0.5, 2.0])) for _ in range(rng.choice([1, 1, 2]))]
+    c = dict(kind='overflow', mdt=mdt, dd=rng.choice([None, None, 'float64']), fam=fam, p=rng.choice([16, 64] if mdt == 'float32' else [48, 64]), rows=rows, cfg=gen_cfg(rng, t % 3),
+             reject=rng.choice([0, 1, 2, 3, 8, 16]))
+    L = {th: ovf_loss(torch, c, torch.tensor([th], dtype=DT)) for th in OVF_GRID}
+    infs = [th for th in OVF_GRID if L[th] == float('inf')]
+    starts = [th for th in OVF_GRID if abs(th) <= 12 and 1e-3 < L[th] < 1e30 and any(L[q] < L[th] for q in OVF_GRID)]
+    if not infs or not starts:
+        return None
+    th = rng.choice(starts)
+    c['x0'] = [th]
+    script, rc, ncalls = [], 0, 0
+    want_calls = rng.choice([1, 2, 3, 6])
+    while ncalls < want_calls and len(script) < 120:
+        # one call: k bad trials, then an ending
+        k = rng.randint(0, c['reject'] + 1)
+        ending = rng.choice(['G', 'G', 'G', 'E', 'R'])
+        plan = [rng.choice(['I', 'I', 'W']) for _ in range(k)] + [ending]
+        for cls in plan:
+            if cls == 'R':
+                script.append(None)
+                rc = 0
+                ncalls += 1
+                break
+            if cls == 'I':
+                target = rng.choice(infs)
+            elif cls == 'W':
+                cand = [q for q in OVF_GRID if L[th] < L[q] < float('inf')]
+                target = rng.choice(cand) if cand else rng.choice(infs)
+            elif cls == 'G':
+                cand = [q for q in OVF_GRID if L[q] < L[th]]
+                target = rng.choice(cand) if cand else th
+            else:
+                target = th
+            script.append(target - th)
+            if L[th] < L[target] and rc < c['reject']:
+                rc += 1
+                continue
+            th, rc = target, 0
+            ncalls += 1
+            break
+        if L[th] == float('inf'):
+            break
+    c.update(script=script, ncalls=max(1, ncalls))
+    return c
+
+
+def gen_overflow_real(rng, t):
+    """the ill-conditioned start on the flat side of exp(a t) - b: J = a exp(a t) is tiny, the weakly damped first trials jump to where the loss overflows"""
+    mdt = 'float32' if t % 2 else 'float64'
+    a, b_ = rng.choice([1.0, 2.0, 0.5, -1.0]), rng.choice([1.0, 0.5, 1.5])
+    mn = rng.choice([None, None, 1e-9, 1e-12])
+    lo = {None: -7.8, 1e-9: -10.0, 1e-12: -13.0}[mn] if mdt == 'float64' else {None: -9.5, 1e-9: -10.0, 1e-12: -12.5}[mn]
+    hi = -6.2 if mdt == 'float64' else -4.5
+    x0 = [rng.uniform(lo, hi) / a]
+    lin = None
+    if rng.random() < 0.3:
+        lin, x0 = [(rng.choice([0.5, 1.0]), rng.choice([1.0, -2.0]))], x0 + [0.0]
+    kind = rng.choice([0, 1, 2, 2])
+    cfg = gen_cfg(rng, kind)
+    if kind == 2:
+        cfg['radius'] = pow2(rng, 10, 20)
+    else:
+        cfg['damping'] = pow2(rng, -20, -10)
+    return dict(kind='overflow', mdt=mdt, dd=rng.choice([None, None, 'float64']), fam='exp', p=0, rows=[(a, b_)], lin=lin, x0=x0, cfg=cfg, min=mn,
+                reject=rng.choice([16, 16, 8, 3, 1]), solver=rng.randrange(3), raise_at=rng.choice([None, None, None, rng.randint(0, 6)]), ncalls=rng.choice([1, 2, 4]))
+
+
+def overflow_models(ctx, pp, torch):
+    rng = random.Random('C08-overflow-%r' % (ctx.seed,))
+    seen = {}
+    cases = [gen_overflow_scripted(rng, torch, t) for t in range(ctx.scale(120, 1200))] + [gen_overflow_real(rng, t) for t in range(ctx.scale(60, 600))]
+    for c in cases:
+        if c is None:
+            continue
+        ctx.case(('overflow', tuple(sorted(c.items(), key=str))), branch='overflow-universe-%s-%s-model-%s' % (c['fam'], c['mdt'], 'scripted-solver' if c.get('script') is not None else 'real-solver'))
+        ctx.traces += 1
+        why = overflow_one(pp, torch, c)
+        if why and seen.get(why.split(':')[0], 0) < 3:
+            seen[why.split(':')[0]] = seen.get(why.split(':')[0], 0) + 1
+            ctx.violation('lm-clause:' + why.split(':')[0], why, c)
 
 
 # ------------------------------------------------------------------------------------------------
